@@ -6,6 +6,8 @@ import OxiddModel.Generated.ObTdd
 import OxiddModel.Generated.ObTbl
 import OxiddModel.Generated.ObGc
 import OxiddModel.Generated.ObOrderings
+import OxiddModel.Generated.ObTerminalBdd
+import OxiddModel.Generated.ObTerminalTdd
 
 /-! All obligations over the tables extracted from `/repo` (the checks import only the modules of
 their concern). -/
